@@ -552,3 +552,31 @@ V("refactor-block-index-helper", ["C01", "C08"], ["BOUND-SAMESRC", "GEN-BLOCKS",
 
 V("rflow-normal-unrestricted", ["C02"], ["RESTRICTION-FLOW"], "fire", (ACC, "            table = L.Symbol(f\"{cellname}_reference_normals\", dtype=L.DataType.REAL)\n            facet = self.symbols.entity(\"facet\", mt.restriction)", "            table = L.Symbol(f\"{cellname}_reference_normals\", dtype=L.DataType.REAL)\n            facet = self.symbols.entity(\"facet\", None)"))
 V("rflow-benign-local", ["C02"], ["RESTRICTION-FLOW"], "benign", (ACC, "        expr = self.symbols.domain_dof_access(dof, component, gdim, num_scalar_dofs, mt.restriction)", "        expr = self.symbols.domain_dof_access(dof, component, gdim, num_scalar_dofs, restriction=mt.restriction)"))
+
+# ---- rules added during round 4 -----------------------------------------------------------------------
+DEFP2 = "ffcx/codegeneration/definitions.py"
+EI = "ffcx/element_interface.py"
+V("r4-kernel-once-list", ["C06"], ["KERNEL-ONCE"], "fire", (REP, "        i.expression.name: set(j[0] for j in i.expression.integrand.keys()) for a in irs for i in a", "        i.expression.name: [j[0] for j in i.expression.integrand.keys()] for a in irs for i in a"))
+V("r4-kernel-once-benign-sorted", ["C06"], ["KERNEL-ONCE"], "benign", (REP, "        i.expression.name: set(j[0] for j in i.expression.integrand.keys()) for a in irs for i in a", "        i.expression.name: {j[0] for j in i.expression.integrand.keys()} for a in irs for i in a"))
+V("r4-entity-tag-custom-cell", ["C06", "C11"], ["RULE-ENTITY-TAG"], "fire", (REP, "            rules[custom_cell_type] = (points, weights, None)", "            rules[cell_type] = (points, weights, None)"))
+V("r4-prologue-zero-A", ["C07", "C18"], ["KERNEL-PROLOGUE"], "fire", ("ffcx/codegeneration/numba/integral.py", "    A = numba.carray(_A, ({sizes.A}))\n", "    A = numba.carray(_A, ({sizes.A}))\n    A[:] = 0\n"))
+V("r4-prologue-benign-comment", ["C07", "C18"], ["KERNEL-PROLOGUE"], "benign", ("ffcx/codegeneration/numba/integral.py", "    A = numba.carray(_A, ({sizes.A}))\n", "    # views of the kernel arguments\n    A = numba.carray(_A, ({sizes.A}))\n"))
+V("r4-mt-element-drop-derivative", ["C01", "C02"], ["MT-ELEMENT"], "fire", (ET, "        ld = tuple(sorted((d,) + ld))", "        ld = (d,)"))
+V("r4-mt-element-benign-unsorted", ["C01"], ["MT-ELEMENT"], "benign", (ET, "        ld = tuple(sorted((d,) + ld))", "        ld = (d,) + tuple(ld)"))
+V("r4-mt-element-x-component", ["C01", "C02"], ["MT-ELEMENT"], "fire", (ET, "        fc, d = mt.component  # x-component, derivative", "        d, fc = mt.component  # x-component, derivative"))
+V("r4-quad-family-last-wins", ["C11", "C01"], ["QUAD-FAMILY"], "fire", (EI, "            polyset_type = basix.polyset_superset(celltype, polyset_type, e.polyset_type)", "            polyset_type = basix.polyset_superset(celltype, basix.PolysetType.standard, e.polyset_type)"))
+V("r4-quad-family-degree-plus-one", ["C11", "C01"], ["QUAD-FAMILY"], "fire", (EI, "            celltype, degree, rule=basix.quadrature.string_to_type(rule), polyset_type=polyset_type", "            celltype, degree + 1, rule=basix.quadrature.string_to_type(rule), polyset_type=polyset_type"))
+V("r4-dtype-conditional-true-branch", ["C09"], ["DTYPE-MERGE"], "fire", (IG, "    return L.merge_dtypes(dtypes)\n\n\nclass IntegralGenerator", "    if isinstance(v, ufl.classes.Conditional):\n        return dtypes[1]\n    return L.merge_dtypes(dtypes)\n\n\nclass IntegralGenerator"))
+V("r4-dtype-benign-skip-condition", ["C09"], ["DTYPE-MERGE"], "benign", (IG, "    return L.merge_dtypes(dtypes)\n\n\nclass IntegralGenerator", "    if isinstance(v, ufl.classes.Conditional):\n        return L.merge_dtypes(dtypes[1:])\n    return L.merge_dtypes(dtypes)\n\n\nclass IntegralGenerator"))
+V("r4-math-first-arg-only", ["C09"], ["MATH-ARGTYPE"], "fire", (CF, "            if c.args[0].dtype == L.DataType.REAL and not any(\n                getattr(arg, \"dtype\", None) == L.DataType.SCALAR for arg in c.args[1:]\n            ):", "            if c.args[0].dtype == L.DataType.REAL:"))
+V("r4-geom-entity-facet-dropped", ["C02", "C04"], ["GEOM-ENTITY"], "fire", (ACC, "            return table[facet * num_facet_edges + mt.component[0]][mt.component[1]]", "            return table[mt.component[0]][mt.component[1]]"))
+V("r4-geom-entity-unscaled", ["C02", "C04"], ["GEOM-ENTITY"], "fire", (ACC, "            return table[facet * num_facet_edges + mt.component[0]][mt.component[1]]", "            return table[facet + mt.component[0]][mt.component[1]]"))
+V("r4-geom-maps-expression-name", ["C04", "C19"], ["GEOM-TABLE-MAPS"], "fire", ("ffcx/codegeneration/expression_generator.py", "            ufl.geometry.FacetEdgeVectors: \"facet_edge_vertices\",", "            ufl.geometry.FacetEdgeVectors: \"facet_edge_vectors\","))
+V("r4-geom-maps-orientation-missing", ["C04", "C19"], ["GEOM-TABLE-MAPS"], "fire", ("ffcx/codegeneration/expression_generator.py", "            ufl.geometry.FacetOrientation: \"facet_orientation\",\n", ""))
+V("r4-dispatch-jacobian-pass-through", ["C01", "C02", "C03"], ["TERMINAL-DISPATCH"], "fire", (DEFP2, "            ufl.geometry.Jacobian: self._define_coordinate_dofs_lincomb,", "            ufl.geometry.Jacobian: self.pass_through,"))
+V("r4-dispatch-benign-jacobian-wrapper", ["C01", "C03"], ["TERMINAL-DISPATCH", "GEN-DEFS"], "benign", (DEFP2, "            ufl.geometry.Jacobian: self._define_coordinate_dofs_lincomb,", "            ufl.geometry.Jacobian: self.jacobian,"))
+V("r4-dispatch-normal-to-jacobian", ["C02", "C03"], ["TERMINAL-DISPATCH"], "fire", (ACC, "            ufl.geometry.ReferenceNormal: self.reference_normal,", "            ufl.geometry.ReferenceNormal: self.cell_facet_jacobian,"))
+V("r4-tabledata-unpermuted", ["C03"], ["TERMINAL-DISPATCH", "GEN-DEFS"], "fire", (DEFP2, "        \"\"\"Return definition code for the Jacobian of x(X).\"\"\"\n        return self._define_coordinate_dofs_lincomb", "        \"\"\"Return definition code for the Jacobian of x(X).\"\"\"\n        tabledata = tabledata._replace(is_permuted=False)\n        return self._define_coordinate_dofs_lincomb"))
+V("r4-wait-ten-times-shorter", ["C14"], ["LOCK-PROTO"], "fire", (JIT, "            time.sleep(1)", "            time.sleep(0.1)"))
+V("r4-wait-benign-finer-polling", ["C14"], ["LOCK-PROTO"], "benign", (JIT, "        for i in range(timeout):", "        for i in range(timeout * 10):"), (JIT, "            time.sleep(1)", "            time.sleep(0.1)"))
+V("r4-restriction-none-cfj", ["C02", "C03"], ["RESTRICTION-FLOW"], "fire", (ACC, "            table = L.Symbol(f\"{cellname}_cell_facet_jacobian\", dtype=L.DataType.REAL)\n            facet = self.symbols.entity(\"facet\", mt.restriction)", "            table = L.Symbol(f\"{cellname}_cell_facet_jacobian\", dtype=L.DataType.REAL)\n            facet = self.symbols.entity(\"facet\", None)"))
